@@ -1,6 +1,7 @@
 //! Which families serve which property, what counts as a non-trivial run for it, probes.
 
 use crate::digest::*;
+use std::collections::BTreeMap;
 use crate::model::*;
 use crate::oracle::Violation;
 use crate::world::*;
@@ -153,8 +154,30 @@ pub fn nontrivial(prop: &str, d: &Digest) -> bool {
                 })
         })
     };
+    // (a script thread's calls follow one another, so per thread they are sorted by invocation and by
+    // return: one binary search per other thread instead of a scan of all calls)
     let any_overlap = |f: &dyn Fn(&OpK) -> bool| {
-        d.calls.iter().any(|a| f(&a.op) && d.calls.iter().any(|b| a.thr != b.thr && b.thr < THUNK_THR && a.thr < THUNK_THR && calls_overlap(a, b)))
+        let mut by_thr: BTreeMap<usize, Vec<(usize, usize)>> = BTreeMap::new();
+        for c in d.calls.iter().filter(|c| c.thr < THUNK_THR) {
+            by_thr.entry(c.thr).or_default().push((c.inv, c.ret_or_max()));
+        }
+        if by_thr.len() < 2 {
+            return false;
+        }
+        let sorted = by_thr.values().all(|v| v.windows(2).all(|w| w[0].1 <= w[1].0));
+        if !sorted {
+            return d.calls.iter().any(|a| f(&a.op) && d.calls.iter().any(|b| a.thr != b.thr && b.thr < THUNK_THR && a.thr < THUNK_THR && calls_overlap(a, b)));
+        }
+        d.calls.iter().any(|a| {
+            a.thr < THUNK_THR
+                && f(&a.op)
+                && by_thr.iter().any(|(t, v)| {
+                    *t != a.thr && {
+                        let k = v.partition_point(|x| x.1 <= a.inv);
+                        k < v.len() && v[k].0 < a.ret_or_max()
+                    }
+                })
+        })
     };
     match prop {
         "C01" => overlapping_dispatches(),
@@ -194,11 +217,14 @@ pub fn nontrivial(prop: &str, d: &Digest) -> bool {
                         && d.stores.iter().any(|sd| sd.insts.iter().any(|i| i.first < c.ret_or_max() && c.inv < i.last))
                 })
         }
-        "C09" => has("unsubscribe_overlaps_pipeline") || d.regs.values().any(|(sub, s, ci)| {
-            !matches!(d.sub_kind(*sub), SubKind::Selector)
-                && d.stores[*s].first_shutdown_inv.map(|f| d.calls[*ci].ret_or_max() < f).unwrap_or(false)
-                && !d.calls.iter().any(|u| matches!(u.op, OpK::Unsub { .. }) && u.inv < d.stores[*s].first_shutdown_inv.unwrap())
-        }) && d.stores.iter().any(|sd| sd.insts.len() >= 2),
+        "C09" => has("unsubscribe_overlaps_pipeline") || {
+            let first_unsub = d.calls.iter().filter(|u| matches!(u.op, OpK::Unsub { .. })).map(|u| u.inv).min().unwrap_or(usize::MAX);
+            d.regs.values().any(|(sub, s, ci)| {
+                !matches!(d.sub_kind(*sub), SubKind::Selector)
+                    && d.stores[*s].first_shutdown_inv.map(|f| d.calls[*ci].ret_or_max() < f).unwrap_or(false)
+                    && !(first_unsub < d.stores[*s].first_shutdown_inv.unwrap())
+            }) && d.stores.iter().any(|sd| sd.insts.len() >= 2)
+        },
         "C10" => d.reg_chan.values().any(|ch| {
             d.ev.iter().any(|e| matches!(&e.k, K::ChFull { chan } if chan == ch) || matches!(&e.k, K::Block { on: BlockOn::ChanSend(c) } if c == ch))
         }),
